@@ -4,6 +4,14 @@ TB = ("Trusted: Lean 4.33 kernel (axioms at most propext, Classical.choice, Quot
       "the hand-written model, tied to the code only by the correspondence run (differential testing of the model's executable definitions against the real crate on generated and enumerated inputs); "
       "SHA-256 as a free term algebra. ")
 TEXT = {
+    "C06": {
+        "text": "Invariant proved by induction over arbitrary operation sequences on any number of co-resident logs: the in-memory tree equals the stored commits in order for every log, hence re-opening yields the same tree; stored commits are hashes of their bytes (for well-formed supplied records); append order/timestamps preserved; rewind keeps a prefix; operations on one log leave every other log's rows and tree untouched. One model for both backends (the repaired code behaves identically), each backend tied to it by generated scripts over 2-4 logs sharing a table/directory with duplicate events.",
+        "note": TB + "Modelled rather than verified: sqlite (ordered rows, atomic transactions), file system (a log file is its record list), FormatStream iteration; fsync/durability not modelled.",
+    },
+    "C07": {
+        "text": "Theorems for all log states, patches and single-index checkpoints: a checked patch is applied iff the root equals the checkpoint root, i.e. (free hash) iff the receiver holds exactly the sender's base sequence; every refused patch, rewind, rewind-and-patch (with rollback) and replace-all leaves every log's records and tree as before; an accepted replace-all yields exactly the supplied records. Tied to both backends by generated scripts with matching/stale/ahead/diverged/foreign/forged checkpoints and present/duplicate/absent rewind targets.",
+        "note": TB + "Modelled rather than verified: storage as in C06; the server handler event_patch is composed in the harness from the real primitives; I/O errors in the middle of an operation are C13's subject.",
+    },
     "C08": {
         "text": "Theorems for all leaf sequences of any length: root injectivity, compare(head proof) = equal/contains/unknown exactly per the prefix relation, forged single-index proofs cannot obtain `contains`, single-leaf proofs verify against a replica of any length iff the position agrees, the ancestor scan returns the newest agreeing position (LCP only under a stated hypothesis; negation witnessed). Model tied to rs_merkle/CommitTree by exhaustive enumeration over a 3-letter alphabet plus random long pairs and forged proofs.",
         "note": TB + "Modelled rather than verified: rs_merkle 1.5 tree/proof construction (single-index proofs only). The over-the-wire scan flow is covered by the C04 harness.",
